@@ -344,7 +344,7 @@ class SqliteHistory(History):
             XSH.env["XONSH_HISTORY_FILENAME"] = filename
         self.filename = filename
         self.last_pull_times = {None: time.time()}
-        self.gc = SqliteHistoryGC() if gc else None
+        self.gc = SqliteHistoryGC(filename=self.filename) if gc else None
         self._last_hist_inp = None
         self.inps = []
         self.rtns = []
@@ -458,7 +458,9 @@ class SqliteHistory(History):
         return cnt
 
     def run_gc(self, size=None, blocking=True, **_):
-        self.gc = SqliteHistoryGC(wait_for_shell=False, size=size)
+        self.gc = SqliteHistoryGC(
+            wait_for_shell=False, size=size, filename=self.filename
+        )
         if blocking:
             while self.gc.is_alive():
                 time.sleep(0.1)  # don't monopolize the CPU while waiting for gc
